@@ -1046,6 +1046,12 @@ def rules_iter(prog, res):
     result = fa.defterm(st["dest"]["local"], sb, len(f.blocks[sb]["stmts"]), "call")
     # stores to index
     stores = [e for e in fa.mem_events() if e[0] == "store"]
+    # stores into fields other than data / index (a frame counter, statistics) are not this rule's business: I-state decides that such
+    # fields never flow back into data, index, the scanner's argument, a branch or the result
+    def _other_store(e):
+        P_ = fa.objpath(e[3]["place"], (e[1], e[2]))
+        return P_.op == "pf" and P_.args[0] is self_obj and P_.args[1] not in (i_data, i_index)
+    stores = [e for e in stores if not _other_store(e)]
     oks = False
     sd = ""
     if len(stores) == 1:
@@ -1084,6 +1090,9 @@ def rules_iter(prog, res):
         res.fn(g)
         ga = FA(g, prog)
         v = ga.end_val(0, g.return_blocks()[0])
-        ok = v.op == "agg" and len(v.args[3]) == 2 and v.args[3][i_index].op == "const" and const_val(v.args[3][i_index]) == 0 \
+        ok = v.op == "agg" and len(v.args[3]) == len(fields) and v.args[3][i_index].op == "const" and const_val(v.args[3][i_index]) == 0 \
             and strip_ref(v.args[3][i_data]).op == "arg"
         res.ob("I-iter", "iter | new(data) = {data, index: 0}", ok, show(v, ga.names), g.loc)
+    import statefields
+    statefields.rule_other_state(prog, res, "I-state", "iter", "MsgFrameIter", fields, ("data", "index"), [ITER_NEXT, "MsgFrameIter::consumed"], "MsgFrameIter::",
+                                 what="data, index, the scanner's argument, a branch or the value returned by next() / consumed()")
